@@ -16,6 +16,7 @@ import (
 // debug.SetPanicOnFault the fault is a recoverable panic carrying the address
 // (DESIGN §4.6 "Y build", oracle C19.write).
 type arena struct {
+	br   byteRanges
 	mem  []byte
 	off  int
 	base uintptr
@@ -75,13 +76,16 @@ func (a *arena) bytes(x []byte) []byte {
 	for i := len(x); i < n; i++ {
 		out[i] = sentinel8
 	}
+	a.br.add(uintptr(unsafe.Pointer(&out[0])), uintptr(len(x)))
 	return out[:len(x)]
 }
 
 func (a *arena) strs(x []string) []string {
 	hdrs := unsafe.Slice((*string)(a.alloc(16*len(x)+16, 8)), len(x))
 	for i, s := range x {
+		nr := len(a.br.lo)
 		b := a.bytes([]byte(s))
+		a.br.lo, a.br.hi = a.br.lo[:nr], a.br.hi[:nr] // string memory is not a []byte input
 		if len(b) == 0 {
 			hdrs[i] = ""
 			continue
